@@ -1,5 +1,7 @@
 import Gmx.Model.ConfigAccess
 import Gmx.Gen.Layout
+import Gmx.Gen.SdkPool
+import Gmx.Model.PoolOps
 /-!
 # C40 — the SDK market model agrees with the on-chain program
 
@@ -9,7 +11,7 @@ program `states/market/{model,pool,config}.rs` vs SDK `crates/programs/src/model
 The gmsol-model actions (deposit, withdrawal, swap, position changes) are generic functions of what
 the trait accessors return, so equal accessor tables give equal action results
 (`actions_congruent`); what is NOT an accessor table is the `Pool` trait implementation, compared
-method by method below.
+method by method below (all methods incl. `checked_cancel_amounts` since the F-C40 fix).
 -/
 namespace Gmx.C40
 open Gmx.Gen.MarketConfig Gmx.Gen.Pools Gmx.Gen.Wiring Gmx.ConfigAccess Gmx.Gen.Layout
@@ -101,24 +103,35 @@ theorem pool_shared_bodies_identical : (sharedPoolFnBodyEq.all fun p => p.2) = t
 theorem pool_required_methods :
     (poolTraitRequired.all fun f => progPoolFns.contains f && sdkPoolFns.contains f) = true := by decide +kernel
 
-/-- PARTIAL (the literal clause "same Pool behaviour" is false, see witness): every program
-override other than `checked_cancel_amounts` is also overridden, identically, by the SDK -/
-theorem sdk_pool_overrides_partial :
-    ∀ f ∈ progPoolFns, f = "checked_cancel_amounts" ∨ sdkPoolFns.contains f = true := by decide +kernel
+/-- every `Balance`/`Pool` method the program implements is implemented by the SDK as well
+(since /repo af87de1 this includes `checked_cancel_amounts`; before, F-C40) -/
+theorem sdk_pool_overrides_complete :
+    (∀ f ∈ progPoolFns, sdkPoolFns.contains f = true) ∧ (∀ f ∈ sdkPoolFns, progPoolFns.contains f = true) := by
+  decide +kernel
 
-/-- WITNESS of the divergence F-C40: the program overrides `checked_cancel_amounts`
-(`cancel_amounts` on the raw u128 amounts, never fails), the SDK does not and inherits the trait's
-default, which converts `min(long, short)` to `i128` and fails above `i128::MAX`. -/
-theorem sdk_pool_overrides_witness :
-    progPoolFns.contains "checked_cancel_amounts" = true ∧ sdkPoolFns.contains "checked_cancel_amounts" = false ∧
-    poolTraitProvided.contains "checked_cancel_amounts" = true := by decide +kernel
+/-- the `cancel_amounts` helper of the override is token-identical on both sides, and the SDK has the override -/
+theorem sdk_cancel_override_identical :
+    sdkOverridesCancelAmounts = true ∧ cancelHelperBodyEq = true ∧
+    (sharedPoolFnBodyEq.find? (fun p => p.1 == "checked_cancel_amounts")).map (·.2) = some true := by
+  decide +kernel
 
-/-- the two `checked_cancel_amounts` as arithmetic on an impure pool `(long, short)`:
-program override … -/
+/-- C15's translator (`Gmx.Gen.sdkOverridesCancel`, regenerated by translator/c15_sdk_pool.py) and this
+property's table agree about the override -/
+theorem sdk_cancel_flag_consistent_with_c15 : Gmx.Gen.sdkOverridesCancel = sdkOverridesCancelAmounts := by
+  decide +kernel
+
+/-- the two transcriptions agree on `checked_cancel_amounts` for EVERY pool (pure or not, any amounts) -/
+theorem sdk_cancel_eq_program (p : Gmx.PoolOps.RawPool) :
+    Gmx.PoolOps.cancelSdk sdkOverridesCancelAmounts p = Gmx.PoolOps.cancelProgram p := by
+  have h : sdkOverridesCancelAmounts = true := sdk_cancel_override_identical.1
+  simp [Gmx.PoolOps.cancelSdk, h]
+
+/-- why the override matters — the two `checked_cancel_amounts` as arithmetic on an impure pool
+`(long, short)`: the override (program, and SDK since af87de1) … -/
 def cancelProg (long short : Nat) : Option (Nat × Nat) :=
   if long ≥ short then some (long - short, 0) else some (0, short - long)
 
-/-- … and the trait default used by the SDK (128-bit): the cancelled amount `min long short` must fit `i128` -/
+/-- … and the trait default a `Pool` WITHOUT the override would use (128-bit): the cancelled amount `min long short` must fit `i128` -/
 def cancelDefault (long short : Nat) : Option (Nat × Nat) :=
   let m := if long ≥ short then short else long
   if m < 2 ^ 127 then some (long - m, short - m) else none
@@ -137,7 +150,7 @@ theorem cancel_default_fails_iff (long short : Nat) :
   unfold cancelDefault
   by_cases hls : long ≥ short <;> simp [hls] <;> omega
 
-/-- concrete diverging pool (replayed on the real code by the harness): long = short = 2^127 -/
+/-- the former F-C40 witness (kept in the corpus as a regression input): long = short = 2^127 -/
 theorem cancel_witness :
     cancelProg (2 ^ 127) (2 ^ 127) = some (0, 0) ∧ cancelDefault (2 ^ 127) (2 ^ 127) = none := by decide
 
